@@ -74,6 +74,11 @@ def gen_history(rng, hw, maxlen):
         if not rawonly and not any(o.startswith("S") for o in ops):
             ops[-1:] = ["S %d" % val()] if len(ops) == maxlen else []; ops.append("S %d" % val())
         mode = "raw" if rawonly else "mixed"
+    if rng.random() < 0.3:
+        # the same calls made from other threads: ST = a helper thread that makes the call and exits before the next operation,
+        # SK = one long-lived worker thread that stays alive to the end of the history (values >= 1 only: 0 aborts the process from whichever thread)
+        ops = [(rng.choice(["ST", "SK", "S"]) + o[1:]) if o.startswith("S ") and o != "S 0" else o for o in ops]
+        mode += "+threads"
     w = " W" if rng.random() < 0.15 else ""
     return "T %d %s%s" % (len(ops), " ".join(ops), w), mode
 
@@ -82,7 +87,7 @@ def parse_case(case):
     t = case.split(); assert t[0] == "T"
     k = int(t[1]); i = 2; ops = []
     for _ in range(k):
-        if t[i] == "S": ops.append(("S", int(t[i + 1]))); i += 2
+        if t[i] in ("S", "ST", "SK"): ops.append((t[i], int(t[i + 1]))); i += 2      # ST / SK: the same call made from another thread
         elif t[i] == "C": ops.append(("C", int(t[i + 1]), int(t[i + 2]))); i += 3
         elif t[i] == "D": ops.append(("D", int(t[i + 1]))); i += 2
         else: raise ValueError("bad op " + t[i])
@@ -126,7 +131,7 @@ def judge_knob(case, im):
             return ("history must stop with %s after %d operations; implementation printed '%s'" % (expected, j, im["apart"]), "harness" if expected == "BADSLOT" else "property")
         return "stopped"
     for o in ops:
-        if o[0] == "S":
+        if o[0] in ("S", "ST", "SK"):
             if o[1] == 0:
                 r = stop("ABORT"); return None if r == "stopped" else r
             last = o[1]
@@ -163,7 +168,7 @@ def judge_knob(case, im):
 
 
 def model_line(case, dflt):
-    t = case.split()
+    t = ["S" if x in ("ST", "SK") else x for x in case.split()]     # which thread makes the call is no part of the model: the limit is process-wide
     if t[-1] == "W": t = t[:-1]
     return "%d %s" % (dflt, " ".join(t[1:]))
 
@@ -340,6 +345,18 @@ def gen_combos(rng, tier, hw, have_mpi):
         for _ in range(12):
             out.append({"prog": rng.choice(["mcb", "approx"]), "algo": rng.choice(algos), "parallel": rng.choice([None, True, False]), "cores": rng.choice(coresv),
                         "verbose": rng.random() < 0.5, "printcycles": rng.random() < 0.5, "k": None, "np": None})
+    # the same programs in a process whose CPU affinity is restricted to one CPU: TBB's default follows the affinity mask, the hardware concurrency
+    # boost reports need not; --cores n must still be what is in force, in particular for n = the machine's hardware concurrency and its neighbours
+    import shutil as _sh
+    if _sh.which(PIN[0]):
+        n = 0
+        for prog in ("mcb", "approx"):
+            for cores in ([None, 0, 1, 2, hw - 1, hw, hw + 1, 2 * hw] if tier == "quick" else coresv + [hw - 1, hw + 1, 2 * hw]):
+                for par in ((None, False) if cores in (None, 0) or tier == "quick" and n % 3 else (None, True, False)):
+                    if cores is not None and cores < 0: continue
+                    out.append({"prog": prog, "algo": algos[n % len(algos)], "parallel": par, "cores": cores, "verbose": n % 2 == 0, "vform": "--verbose",
+                                "printcycles": False, "k": None, "np": None, "pin": True})
+                    n += 1
     if have_mpi:
         for n, algo in enumerate(algos if tier == "thorough" else ["signed", "fvs", "iso"]):
             for verbose in ((False, True) if tier == "thorough" else (n % 2 == 0,)):
@@ -348,8 +365,21 @@ def gen_combos(rng, tier, hw, have_mpi):
     return out
 
 
+PIN = ["taskset", "-c", "0"]
+
+
+def pinned_default(hexe):
+    """TBB's default and boost's hardware concurrency as seen by a process restricted to one CPU"""
+    rc, so, se = lib.sh(PIN + [hexe], inp="T 0\n", timeout=120)
+    for l in so.splitlines():
+        im = parse_impl(l)
+        if im:
+            return im["dflt"], im["bhw"]
+    return None
+
+
 def combo_text(cb):
-    return "DEMO %s %s" % (cb["prog"], " ".join(combo_args(cb))) + (" [np=%d]" % cb["np"] if cb.get("np") and cb["np"] > 1 else "")
+    return "DEMO %s %s" % (cb["prog"], " ".join(combo_args(cb))) + (" [np=%d]" % cb["np"] if cb.get("np") and cb["np"] > 1 else "") + (" [pinned to cpu 0]" if cb.get("pin") else "")
 
 
 def run_demo(exe, cb, tiny):
@@ -370,6 +400,7 @@ def run_demo(exe, cb, tiny):
         if rc != 0: se += se0[-400:]
         shutil.rmtree(od, ignore_errors=True)
     else:
+        if cb.get("pin"): cmd = PIN + cmd          # the process restricted to one CPU (batch scheduler, container cpuset, taskset)
         rc, so, se = lib.sh(cmd, timeout=120)
     algo, says, actives = None, None, []
     for l in so.splitlines():
@@ -482,7 +513,7 @@ def check(tier, seed):
         nbad = 0; reported = {}
         for r, m in zip(res, modes):
             ops, w = parse_case(r["case"])
-            nt = any(o[0] == "S" and o[1] != dflt for o in ops)
+            nt = any(o[0] in ("S", "ST", "SK") and o[1] != dflt for o in ops)
             c.count(r["case"], nt, bucket="knob:" + m + ("+W" if w else ""))
             agree = r["im"] is not None and r["im"]["apart"] == r["fixed"]
             if r["why"] is None and agree:
@@ -547,7 +578,13 @@ def check(tier, seed):
                     c.notes.append("could not read TBB's default under mpiexec -n %d; MPI demo runs dropped" % n_)
             keep = [i for i, cb in enumerate(combos) if cb["prog"] != "mpi" or mpienv.get(cb["np"] or 1)]
             combos, obs = [combos[i] for i in keep], [obs[i] for i in keep]
-            env = [(mpienv[cb["np"] or 1] if cb["prog"] == "mpi" else (dflt, bhw)) for cb in combos]
+            pinenv = pinned_default(exe) if any(cb.get("pin") for cb in combos) else None
+            if pinenv is None and any(cb.get("pin") for cb in combos):
+                c.notes.append("could not read TBB's default under %s; pinned demo runs dropped" % " ".join(PIN))
+                keep = [i for i, cb in enumerate(combos) if not cb.get("pin")]
+                combos, obs = [combos[i] for i in keep], [obs[i] for i in keep]
+            c.extra["tbb_default_and_hardware_concurrency_pinned_to_one_cpu"] = pinenv
+            env = [(mpienv[cb["np"] or 1] if cb["prog"] == "mpi" else pinenv if cb.get("pin") else (dflt, bhw)) for cb in combos]
             c.extra["tbb_default_under_mpiexec"] = {str(k): v for k, v in mpienv.items()}
             preds = demo_predictions(combos, env)
             reported = {}; nbad = 0; d5_witness_fails = None; d5_hit_direct = False
@@ -556,7 +593,7 @@ def check(tier, seed):
                 par = combo_model_fields(cb)[1]
                 c.count(txt, par, bucket="demo:%s:%s" % (cb["prog"], "par" if par else "seq"))
                 seen = demo_observed(ob)
-                why = judge_demo(cb, ob, bhw)
+                why = judge_demo(cb, ob, env[i][1])
                 if i == 0:
                     d5_witness_fails = why is not None
                 if why is None and seen == preds[("F", "F")][i]:
@@ -577,7 +614,7 @@ def check(tier, seed):
                 if reported.get(key, 0) >= 2:
                     continue
                 reported[key] = reported.get(key, 0) + 1
-                rep = {"kind": "demo", "component": "c20demo", "prog": cb["prog"], "args": combo_args(cb), "np": cb.get("np"), "cmd": ob["cmd"], "impl": seen,
+                rep = {"kind": "demo", "component": "c20demo", "prog": cb["prog"], "args": combo_args(cb), "np": cb.get("np"), "pin": bool(cb.get("pin")), "cmd": ob["cmd"], "impl": seen,
                        "model": preds[("F", "F")][i], "stdout": ob["stdout"], "stderr": ob["stderr"]}
                 if "MISSING" in seen and ob["algo"] is not None:
                     rep["theorem_or_correspondence"] = "hook h2: the PARMCB_VERIF line must be printed before the algorithm call"
@@ -626,11 +663,11 @@ def replay(path):
             print("build failed:", derr); print("VIOLATION property=%s replay=%s" % (PID, path)); return 1
         im = run_knob(hexe, ["T 0"])[0]["im"]
         tiny = os.path.join(lib.BUILD, "c20_tiny.gr"); open(tiny, "w").write(TINY)
-        cb = combo_of_args(r["prog"], r["args"]); cb["np"] = r.get("np")
+        cb = combo_of_args(r["prog"], r["args"]); cb["np"] = r.get("np"); cb["pin"] = bool(r.get("pin"))
         ob = run_demo(dexe, cb, tiny)
-        env = mpi_default(hexe, cb["np"] or 1) if cb["prog"] == "mpi" else (im["dflt"], im["bhw"])
+        env = mpi_default(hexe, cb["np"] or 1) if cb["prog"] == "mpi" else pinned_default(hexe) if cb["pin"] else (im["dflt"], im["bhw"])
         seen = demo_observed(ob); pred = demo_predictions([cb], [env])[("F", "F")][0]
-        why = judge_demo(cb, ob, im["bhw"])
+        why = judge_demo(cb, ob, env[1])
         print("cmd  :", ob["cmd"]); print("model:", pred); print("impl :", seen); print("judge:", why)
         if why or seen != pred:
             print("VIOLATION property=%s replay=%s" % (PID, path)); return 1
